@@ -94,7 +94,7 @@ Lemma read_oracle_independent fuel cfg r1 r2 x : ges cfg = false ->
 Proof. intros H. unfold read. rewrite !(ext_ref_off _ _ H). reflexivity. Qed.
 
 (* the same two facts for every suds entry point *)
-Lemma entry_config_off e lib_default : ges (entry_config e lib_default) = false.
+Lemma entry_config_off e lib_default x : ges (entry_config e lib_default x) = false.
 Proof. destruct e; reflexivity. Qed.
 
 Lemma entry_quiet e fuel lib_default resolve x :
@@ -104,6 +104,12 @@ Proof. unfold entry_parse, entry_wrap; simpl. apply read_quiet, entry_config_off
 Lemma entry_oracle_independent e fuel lib_default r1 r2 x :
   entry_parse e fuel lib_default r1 x = entry_parse e fuel lib_default r2 x.
 Proof.
-  unfold entry_parse. rewrite (read_oracle_independent fuel _ r1 r2 x (entry_config_off e lib_default)).
+  unfold entry_parse. rewrite (read_oracle_independent fuel _ r1 r2 x (entry_config_off e lib_default x)).
   reflexivity.
 Qed.
+
+(* standalone="no" in the XML declaration is the same document as no
+   standalone pseudo-attribute, for every configuration and every world *)
+Lemma read_standalone_no fuel cfg resolve ext subset body :
+  read fuel cfg resolve (mkDoc SNo ext subset body) = read fuel cfg resolve (mkDoc SAbsent ext subset body).
+Proof. reflexivity. Qed.
